@@ -7,6 +7,7 @@ import (
 	"go/format"
 	"go/parser"
 	"go/token"
+	"go/types"
 	"os"
 	"strings"
 )
@@ -566,6 +567,139 @@ func (p *Prog) drainLoopOverlay() (map[string][]byte, []string) {
 		}
 		overlay[fn] = buf.Bytes()
 		notes = append(notes, fmt.Sprintf("%d receive-until-closed loop(s) rewritten to `for range ch {}`", n))
+	}
+	return overlay, notes
+}
+
+// Generated protobuf getters (same overlay mechanism).
+//
+// protoc-gen-go gives every message a nil-safe getter per field:
+// `func (x *M) GetF() T { if x != nil { return x.F }; return zero }`. The id
+// and wire-field rules identify a field by its selector, so a call X.GetF() of
+// such a getter (declared in the module's internal/plugin package, on a struct
+// that has a field F of the getter's result type) is rewritten to X.F. The
+// getters of an optional sub-message (a type that another message holds by
+// pointer) are left alone: there the nil-safety of the receiver is the point,
+// and the knock classification rule evaluates them as getters.
+func (p *Prog) getterOverlay() (map[string][]byte, []string) {
+	type edit struct{ from, to int }
+	edits := map[string][]edit{}
+	names := map[string][]string{}
+	isGetter := func(fn *types.Func) string {
+		if fn == nil || fn.Pkg() == nil || !strings.HasSuffix(fn.Pkg().Path(), "/internal/plugin") || !strings.HasPrefix(fn.Name(), "Get") {
+			return ""
+		}
+		sig, ok := fn.Type().(*types.Signature)
+		if !ok || sig.Recv() == nil || sig.Params().Len() != 0 || sig.Results().Len() != 1 {
+			return ""
+		}
+		rt := sig.Recv().Type()
+		if pt, ok := rt.(*types.Pointer); ok {
+			rt = pt.Elem()
+		}
+		st, ok := rt.Underlying().(*types.Struct)
+		if !ok {
+			return ""
+		}
+		// an optional sub-message (a type that is the pointer-typed field of
+		// another message of the package) keeps its getters: there the
+		// nil-safety of the receiver is the point
+		if named, ok := rt.(*types.Named); ok {
+			scope := fn.Pkg().Scope()
+			for _, nm := range scope.Names() {
+				tn, ok := scope.Lookup(nm).(*types.TypeName)
+				if !ok {
+					continue
+				}
+				ost, ok := tn.Type().Underlying().(*types.Struct)
+				if !ok {
+					continue
+				}
+				for i := 0; i < ost.NumFields(); i++ {
+					if pt, ok := ost.Field(i).Type().(*types.Pointer); ok && types.Identical(pt.Elem(), named) {
+						return ""
+					}
+				}
+			}
+		}
+		field := strings.TrimPrefix(fn.Name(), "Get")
+		for i := 0; i < st.NumFields(); i++ {
+			if st.Field(i).Name() == field && types.Identical(st.Field(i).Type(), sig.Results().At(0).Type()) {
+				return field
+			}
+		}
+		return ""
+	}
+	for _, f := range p.Funcs {
+		if f.Body == nil || f.Decl == nil {
+			continue
+		}
+		fn := p.Fset.Position(f.Body.Pos()).Filename
+		if !inScopeFile(fn) || !strings.HasPrefix(f.Pkg.PkgPath, modPath) || strings.HasSuffix(f.Pkg.PkgPath, "/internal/plugin") {
+			continue
+		}
+		info := f.Pkg.TypesInfo
+		ast.Inspect(f.Body, func(x ast.Node) bool {
+			call, ok := x.(*ast.CallExpr)
+			if !ok || len(call.Args) != 0 {
+				return true
+			}
+			se, ok := call.Fun.(*ast.SelectorExpr)
+			if !ok {
+				return true
+			}
+			sel := info.Selections[se]
+			if sel == nil || sel.Kind() != types.MethodVal {
+				return true
+			}
+			mf, _ := sel.Obj().(*types.Func)
+			field := isGetter(mf)
+			if field == "" {
+				return true
+			}
+			edits[fn] = append(edits[fn], edit{p.Fset.Position(se.Sel.Pos()).Offset, p.Fset.Position(call.End()).Offset})
+			names[fn] = append(names[fn], field)
+			return true
+		})
+	}
+	overlay := map[string][]byte{}
+	var notes []string
+	for fn, es := range edits {
+		src := p.Overlay[fn]
+		if src == nil {
+			b, err := os.ReadFile(fn)
+			if err != nil {
+				continue
+			}
+			src = b
+		}
+		// apply from the end so that offsets stay valid
+		idx := make([]int, len(es))
+		for i := range idx {
+			idx[i] = i
+		}
+		for i := 0; i < len(idx); i++ {
+			for j := i + 1; j < len(idx); j++ {
+				if es[idx[j]].from > es[idx[i]].from {
+					idx[i], idx[j] = idx[j], idx[i]
+				}
+			}
+		}
+		out := append([]byte{}, src...)
+		okAll := true
+		for _, k := range idx {
+			e := es[k]
+			if e.from < 0 || e.to > len(out) || e.from >= e.to {
+				okAll = false
+				break
+			}
+			out = append(append(append([]byte{}, out[:e.from]...), []byte(names[fn][k])...), out[e.to:]...)
+		}
+		if !okAll {
+			continue
+		}
+		overlay[fn] = out
+		notes = append(notes, fmt.Sprintf("%d generated getter call(s) rewritten to field selectors", len(es)))
 	}
 	return overlay, notes
 }
